@@ -292,6 +292,12 @@ func gatedExec(lab *fedlab.Lab, q string) (execObs, bool) {
 }
 
 // faultFree runs the operation without faults, recording provenance.
+func sortedJoin(ss []string) string {
+	c := append([]string(nil), ss...)
+	sort.Strings(c)
+	return strings.Join(c, "\n")
+}
+
 func faultFree(f *family, lab *fedlab.Lab, q string) (*baseline, error) {
 	b := &baseline{byKey: map[string][]string{}, canon: map[string][]string{}, prov: map[string]map[string]bool{}, types: map[string]*gast.Type{}}
 	lab.Sim.Intercept, lab.Sim.PostProcess = nil, nil
@@ -843,6 +849,7 @@ func check(t *testing.T, run *vk.Run) {
 			Op     string   `json:"op"`
 			F      []string `json:"F"`
 			Kind   string   `json:"kind"`
+			Again  bool     `json:"again"`
 		}
 		if err := run.ReplayInput(&in); err != nil {
 			t.Fatal(err)
@@ -880,6 +887,22 @@ func check(t *testing.T, run *vk.Run) {
 			for _, fl := range fails {
 				fmt.Printf("FAILED %s [%s]\n%s\n", fl.clause, fl.site, fl.detail)
 				run.Violate(vk.Violation{Clause: fl.clause, Site: fl.site, Class: faultClass(b, in.F, in.Kind), Detail: fl.detail})
+			}
+			if in.Again {
+				b2, err2 := faultFree(f, lab, in.Op)
+				why := ""
+				switch {
+				case err2 != nil:
+					why = "the fault-free run fails now: " + err2.Error()
+				case refexec.Canon(b2.data) != refexec.Canon(b.data):
+					why = fmt.Sprintf("data differs\nbefore: %s\nafter:  %s", refexec.Canon(b.data), refexec.Canon(b2.data))
+				case sortedJoin(b2.keys) != sortedJoin(b.keys):
+					why = fmt.Sprintf("requests differ\nbefore: %v\nafter:  %v", b.keys, b2.keys)
+				}
+				fmt.Printf("fault-free run repeated: %s\n", map[bool]string{true: "as before", false: why}[why == ""])
+				if why != "" {
+					run.Violate(vk.Violation{Clause: "every part of data that does not depend on a failed request is identical to the fault-free response (the fault-free run repeated on the same engine after the fault)", Site: "fault-free run after a fault", Class: in.Kind + " / a later fault-free run", Detail: why})
+				}
 			}
 		}
 		return
@@ -926,6 +949,34 @@ func check(t *testing.T, run *vk.Run) {
 							run.Violate(vk.Violation{Clause: fl.clause, Site: fl.site, Class: faultClass(b, F, kind),
 								Detail: fmt.Sprintf("layout %s\noperation %s\nfailed requests %v\nfault %s\n%s", l.String(), q, F, kind, fl.detail),
 								Input:  map[string]any{"family": f.name, "layout": l.OwnerVector(), "n": l.N, "op": q, "F": F, "kind": kind}})
+						}
+						// the faults are over: on the SAME engine the operation gets its
+						// fault-free response again and sends the same requests (a failure
+						// leaves nothing behind). Checked after every fault of a single
+						// request, so that the fault that did it is known.
+						if len(F) == 1 {
+							run.Count("fault_free_again", 1)
+							b2, err2 := faultFree(f, lab, q)
+							why := ""
+							switch {
+							case err2 != nil:
+								why = "the fault-free run fails now: " + err2.Error()
+							case refexec.Canon(b2.data) != refexec.Canon(b.data):
+								why = fmt.Sprintf("data differs\nbefore: %s\nafter:  %s", refexec.Canon(b.data), refexec.Canon(b2.data))
+							case sortedJoin(b2.keys) != sortedJoin(b.keys): // parallel requests arrive in any order
+								why = fmt.Sprintf("requests differ\nbefore: %v\nafter:  %v", b.keys, b2.keys)
+							}
+							if why != "" {
+								run.Violate(vk.Violation{Clause: "every part of data that does not depend on a failed request is identical to the fault-free response (the fault-free run repeated on the same engine after the fault)", Site: "fault-free run after a fault", Class: kind + " / a later fault-free run",
+									Detail: fmt.Sprintf("layout %s\noperation %s\nearlier failed request %v\nfault %s\n%s", l.String(), q, F, kind, why),
+									Input:  map[string]any{"family": f.name, "layout": l.OwnerVector(), "n": l.N, "op": q, "F": F, "kind": kind, "again": true}})
+								// continue on a fresh engine
+								lab.Close()
+								lab, err = fedlab.NewLab(l, f.u, fedlab.LabOptions{})
+								if err != nil {
+									t.Fatalf("lab: %v", err)
+								}
+							}
 						}
 					}
 				}
